@@ -140,3 +140,43 @@ Example C02_time_symmetry_premises_satisfiable :
   (forall a b c : R, (a + (b + c) = (a + b) + c)%R) /\ (forall a : R, (0 + a = a)%R) /\ (forall a : R, (a + 0 = a)%R) /\
   (forall (p : bool) (i : Z) (t : R), ((fun _ _ x => x) p i (- t) + (fun _ _ x => x) p i t = 0)%R).
 Proof. repeat split; intros; cbv beta; ring. Qed.
+
+(* The environment tensors the sweeps are built on (hand model Model/Bath.v of emu_mps.utils.new_left_bath and
+   emu_mps.solver_utils.new_right_bath / right_baths, tied exactly on Gaussian-integer tensors by every run of the
+   check).  Over EVERY commutative ring with involution, every physical dimension, every state factor A, operator
+   factor W and baths L, R of any sizes: growing the left bath by one site and contracting with R is the same
+   number as contracting L with the right bath grown by that site.  (A right bath built from the transposed
+   operator factors is not adjoint to the left one: that is a broken correspondence here.) *)
+From EV Require Import Model.TransferMat Model.Bath Proofs.BathProofs.
+Theorem C02_bath_updates_adjoint :
+  forall (K : Type) (Ko : RingOps K),
+  ring_theory (k0 Ko) (k1 Ko) (kadd Ko) (kmul Ko) (ksub Ko) (kopp Ko) (@eq K) ->
+  forall (d : nat) (A W : T3 K) (L R : B3 K),
+  pair3 Ko (rdims A W) (left_step Ko d A W L) R = pair3 Ko (ldims A W) L (right_step Ko d A W R).
+Proof. exact bath_adjoint. Qed.
+
+(* Hence the contraction of the left environment with the right environment is the same number at EVERY cut of
+   EVERY chain whose bond dimensions fit (any length, any bond dimensions, any boundary baths): the effective
+   Hamiltonians that TDVP/DMRG build at the different sites of a sweep all project one and the same operator, and
+   the value is <psi|H|psi> computed from either end. *)
+Theorem C02_environment_contraction_is_cut_independent :
+  forall (K : Type) (Ko : RingOps K),
+  ring_theory (k0 Ko) (k1 Ko) (kadd Ko) (kmul Ko) (ksub Ko) (kopp Ko) (@eq K) ->
+  forall (d : nat) (As1 Ws1 As2 Ws2 : list (T3 K)) (L R : B3 K) (n m : I3),
+  chain_ok n As1 Ws1 m ->
+  pair3 Ko m (lbath Ko d As1 Ws1 L) (rbath Ko d As2 Ws2 R)
+  = pair3 Ko n L (rbath Ko d (As1 ++ As2) (Ws1 ++ Ws2) R).
+Proof. exact cut_independent. Qed.
+
+(* the premise is satisfiable by a non-trivial chain (two sites, bond dimension 2 in the middle) *)
+Example C02_chain_ok_satisfiable :
+  chain_ok (K := GI) (1, 1, 1)%nat
+    [MkT3 1 2 2 (fun _ _ _ => (1, 0)); MkT3 2 2 1 (fun _ _ _ => (0, 1))]
+    [MkT3 1 4 3 (fun _ _ _ => (1, 1)); MkT3 3 4 1 (fun _ _ _ => (2, 0))] (1, 1, 1)%nat.
+Proof. repeat split. Qed.
+
+(* the check evaluates the whole-chain right bath with every intermediate bath tabulated; it is the same function *)
+Theorem C02_tabulated_right_bath_is_right_bath :
+  forall (K : Type) (Ko : RingOps K) (d : nat) (As Ws : list (T3 K)) (R : B3 K) (t : I3),
+  at3 (rbath_m Ko d As Ws R) t = at3 (rbath Ko d As Ws R) t.
+Proof. exact rbath_m_eq. Qed.
